@@ -1,6 +1,7 @@
 package wire
 
 import (
+	"net"
 	commonpb "go.temporal.io/api/common/v1"
 	"google.golang.org/protobuf/reflect/protoreflect"
 )
@@ -10,3 +11,5 @@ type protoValue = protoreflect.Value
 func protoValueOf(b *commonpb.DataBlob) protoreflect.Value {
 	return protoreflect.ValueOfMessage(b.ProtoReflect())
 }
+
+func netListen() (net.Listener, error) { return net.Listen("tcp", "127.0.0.1:0") }
